@@ -173,3 +173,40 @@ class IsNonOverlappingTemplate:
   loops = {0: dict(invariant=["forall(j, 1, i, idiv(template, pow2(m - j)) != template % pow2(j))"])}
   total = True
   props = ["C12"]
+
+
+impl(f"{N}::OverlappingTemplateMatchingImpl", {"blocks": "list[int]", "block_size": "int", "m": "int"})
+
+
+@contract(f"{N}::NonOverlappingTemplateMatching")
+class NonOverlappingTemplateMatching:
+  """Guard and parameter ladder for all n, blocks: with m and templates left to the library, insufficient data exactly
+  when a block has fewer than 4 bits; the template size follows the coded ladder (2 below 64 bits per block ... 10 from
+  32768 on); the blocks handed on are the n // blocks - bit blocks of the whole string."""
+  params = {"bits": "int", "n": "int", "blocks": "int", "m": "Optional[int]", "templates": "Optional[list[int]]"}
+  returns = "opaque"
+  requires = ["bits >= 0", "n >= 0", "blocks >= 1", "m is None", "templates is None"]
+  raises = {"InsufficientDataError": ("C12", "n // blocks < 4")}
+  entry_ghost = ["g_bs = n // blocks"]      # `blocks` is rebound to the list of blocks later in the body
+  on_call = {SPLIT: ["assert [C12] args[1] == n and args[2] == g_bs"],
+             f"{N}::NonOverlappingTemplateMatchingImpl": [
+      "assert [C12] args[1] == g_bs",
+      "assert [C12] args[2] == (2 if g_bs < 64 else 3 if g_bs < 256 else 4 if g_bs < 1024 else "
+      "5 if g_bs < 2048 else 6 if g_bs < 4096 else 7 if g_bs < 8192 else "
+      "8 if g_bs < 16384 else 9 if g_bs < 32768 else 10)"]}
+  loops = {0: dict(abstract=True, types={"templates": "list[int]"}, keep={"g_bs"})}
+  var_types = {"templates": "list[int]"}
+  props = ["C12"]
+
+
+@contract(f"{N}::OverlappingTemplateMatching")
+class OverlappingTemplateMatching:
+  """Default parameters (NIST 2.8.7: m = 9, block size 2^(m+1) + m - 1 = 1032): insufficient data exactly when the
+  input is shorter than one block."""
+  params = {"bits": "int", "n": "int", "m": "Optional[int]", "block_size": "Optional[int]"}
+  returns = "opaque"
+  requires = ["bits >= 0", "n >= 0", "m is None", "block_size is None"]
+  raises = {"InsufficientDataError": ("C12", "n < 1032")}
+  on_call = {SPLIT: ["assert [C12] args[1] == n and args[2] == 1032"],
+             f"{N}::OverlappingTemplateMatchingImpl": ["assert [C12] args[1] == 1032 and args[2] == 9 and len(args[0]) >= 1"]}
+  props = ["C12"]
